@@ -186,6 +186,42 @@ def _run_all(targets, tier, seed, serial, nproc, reports):
     return reports, crashes
 
 
+def prove_zlemma(name, lprops, build, note, tier):
+    import z3
+    t0 = time.time()
+    ob = prove.Obligation('lemma', 'lemma', name, ['lemma'], lprops, note or name)
+    assumes, goal = build()
+    s = z3.Solver()
+    s.set('timeout', 10000 if tier == 'quick' else 60000)
+    for a in assumes:
+        s.add(a)
+    s.add(z3.Not(goal))
+    r = s.check()
+    if r == z3.unsat:
+        ob.result, ob.backend = 'proved', 'z3'
+    elif r == z3.sat:
+        ob.result, ob.backend = 'refuted', 'z3'
+        ob.witness = {'model': str(s.model())[:2000]}
+    else:
+        res = prove.run_cvc5(s.to_smt2(), 10000 if tier == 'quick' else 60000)
+        if res == 'unsat':
+            ob.result, ob.backend = 'proved', 'cvc5'
+        else:
+            ob.result, ob.backend, ob.note = 'unknown', 'z3+cvc5', 'z3: %s; cvc5: %s' % (s.reason_unknown(), res)
+    ob.ms = (time.time() - t0) * 1000
+    return ob
+
+
+def claimed_level(prop):
+    try:
+        for c in json.load(open(os.path.join(ROOT, 'MANIFEST.json')))['checks']:
+            if c['property_id'] == prop:
+                return c['level_claimed']['category']
+    except Exception:
+        pass
+    return 'proof'
+
+
 def load_known_findings():
     p = os.path.join(ROOT, 'known_findings.json')
     if not os.path.exists(p):
@@ -279,6 +315,16 @@ def cmd_prove(a):
             elif ob.result == 'unknown':
                 unknown.append(ob)
 
+    for name, (lprops, build, note) in sorted(spec.ZLEMMAS.items()):
+        if prop in lprops:
+            ob = prove_zlemma(name, lprops, build, note, tier)
+            obligations.append(ob)
+            by_backend[ob.backend] = by_backend.get(ob.backend, 0) + 1
+            solver_ms_total += ob.ms
+            if ob.result == 'refuted':
+                refuted.append(ob)
+            elif ob.result == 'unknown':
+                unknown.append(ob)
     discharged = sum(1 for ob in obligations if ob.result == 'proved')
     status = 0
     lines = []
@@ -293,7 +339,9 @@ def cmd_prove(a):
             continue
         seen_kf.add(key)
         lines.append('KNOWN-FINDING: property=%s %s' % (prop, f.get('what', f['obligation'])))
-    if crashes or vacuous or bad_canary or (len(obligations) == 0 and not known_hits):
+    claimed = claimed_level(prop)
+    only_bounded = (len(obligations) == 0 and len(bounded_obs) > 0 and claimed == 'other')
+    if crashes or vacuous or bad_canary or (len(obligations) == 0 and not known_hits and not only_bounded):
         status = 3
         for qn, err in crashes:
             lines.append('CHECKER-ERROR property=%s function=%s crashed:\n%s' % (prop, qn, err))
@@ -301,7 +349,7 @@ def cmd_prove(a):
             lines.append('CHECKER-ERROR property=%s function=%s vacuous precondition' % (prop, qn))
         for qn in bad_canary:
             lines.append('CHECKER-ERROR property=%s function=%s canary not refuted (engine unsound or clause unreachable)' % (prop, qn))
-        if len(obligations) == 0:
+        if len(obligations) == 0 and not only_bounded:
             lines.append('CHECKER-ERROR property=%s zero obligations generated' % prop)
     if violations:
         status = 1
@@ -321,7 +369,7 @@ def cmd_prove(a):
 
     # evidence
     samples = [ob.to_json() for ob in obligations[:3]] + [ob.to_json() for ob in obligations[-2:]]
-    level = 'proof'
+    level = 'proof' if claimed != 'other' else 'other'
     ev = {
         'property_id': prop, 'tier': tier, 'seed': seed, 'level': level,
         'coverage': {
@@ -349,6 +397,19 @@ def cmd_prove(a):
         'wall_s': round(time.time() - t0, 2),
         'violations': len({ob.oid for ob in refuted}),
     }
+    if level == 'other':
+        nb = len(bounded_obs)
+        ev['coverage']['explanation'] = (
+            'Contract-based check whose obligations were all generated from the real source and discharged by z3, but '
+            'every path of the functions under contract relies on a stated bound (see bounded_standins: settings '
+            'dictionaries / stream tables of a bounded number of entries), so this is a BOUNDED stand-in: %d obligations '
+            'were discharged within the bound, none is counted as proved (obligations == discharged == %d unbounded).'
+            % (nb, len(obligations)))
+        ev['coverage']['evaluations'] = nb
+        ev['coverage']['distinct_nontrivial'] = len({(ob.oid, tuple(ob.path)) for ob in bounded_obs})
+        ev['coverage']['rule'] = 'one case = one (function, path, clause) obligation discharged within the stated bound; distinct by obligation id and path'
+        if not ev['coverage']['samples']:
+            ev['coverage']['samples'] = [ob.to_json() for ob in bounded_obs[:3]] + [ob.to_json() for ob in bounded_obs[-2:]]
     with open(ev_path + '.tmp', 'w') as f:
         json.dump(ev, f, indent=1, default=str)
     os.replace(ev_path + '.tmp', ev_path)
